@@ -411,15 +411,13 @@ fn fused_inverse_mul_symbols_no_hdpc<T: BinaryMatrix>(matrix: T, symbols: Symbol
                  '1 <= old(self).num_sub_blocks as int <= old(self).symbol_size as int / old(self).symbol_alignment as int']
     u.raw('impl SourceBlockDecoder {')
     u.fn('src/decoder.rs', 'new', impl='impl SourceBlockDecoder', ret='r',
-         resubst=[(r'Set::new\(\)', 'HashSet::new()', 'cfg-std-Set')],
          requires=['config.symbol_size >= 1', 'block_length as int == (block_length as int / config.symbol_size as int) * config.symbol_size as int', 'block_length as int / config.symbol_size as int <= 56403'],
          ensures=['sbd_inv(r)', 'r.source_block_id == source_block_id', 'r.symbol_size == config.symbol_size', 'r.num_sub_blocks == config.num_sub_blocks',
                   'r.symbol_alignment == config.symbol_alignment', 'r.source_block_symbols as int == block_length as int / config.symbol_size as int',
                   'r.received_esi@ == Set::<u32>::empty()', 'r.repair_packets@.len() == 0', 'r.sparse_threshold == SPARSE_MATRIX_THRESHOLD'],
-         inserts=[('let source_symbols = int_div_ceil', 'before',
-                   'proof { reveal(sbd_inv); lemma_ceil_div_exact(block_length as int, config.symbol_size as int); lemma_mod_multiples_basic(block_length as int / config.symbol_size as int, config.symbol_size as int); }'),
-                  ('SourceBlockDecoder {', 'before', 'let verif_syms: Vec<Option<Symbol>> = verif_none_vec(source_symbols as usize);\nproof { lemma_count_some_bound(verif_syms@); }')],
-         subst=[('source_symbols: vec![None; source_symbols as usize],', 'source_symbols: verif_syms,', 'S1-vec-from-elem-None')])
+         prepend='proof { reveal(sbd_inv); lemma_ceil_div_exact(block_length as int, config.symbol_size as int); lemma_mod_multiples_basic(block_length as int / config.symbol_size as int, config.symbol_size as int);'
+                 ' assert forall |v: Seq<Option<Symbol>>| (forall |i: int| 0 <= i < v.len() ==> (#[trigger] v[i]).is_none()) implies #[trigger] count_some(v) == 0 by { lemma_count_some_bound(v); } }',
+         resubst=[(r'vec!\[None; ([^\]]+)\]', r'verif_none_vec(\1)', 'S1-vec-from-elem-None'), (r'Set::new\(\)', 'HashSet::new()', 'cfg-std-Set')])
     u.fn('src/decoder.rs', 'unpack_sub_blocks', impl='impl SourceBlockDecoder', ret='r', external_body=True,
          requires=UNPACK_REQ, ensures=UNPACK_ENS)
     u.trust('SourceBlockDecoder::unpack_sub_blocks contract: proved on the real body in unit V-UNPACK (C05); assumed here')
@@ -518,7 +516,7 @@ fn fused_inverse_mul_symbols_no_hdpc<T: BinaryMatrix>(matrix: T, symbols: Symbol
     SRC_DONE = 'proof { lemma_src_count(self.source_symbols@); }'
     DV_DONE = ('proof { lemma_src_count(self.source_symbols@); assert(slab_rows(%s) =~= dvec_spec(*self, %s as int)); lemma_tpd_frame(*old(self), *self); }')
     u.fn('src/decoder.rs', 'decode', impl='impl SourceBlockDecoder', rename='decode_tail', d5='tail', ret='r',
-         sig_override='fn decode_tail(&mut self) -> Option<Vec<u8>>',
+         sig_override='fn decode_tail(&mut self) -> Option<Vec<u8>>', isolate_loops=True,
          rules=['D1', 'D2', 'A1'], prepend='proof { lemma_inv_basic(*self); }',
          requires=['sbd_inv(*old(self))'] + PARAMS_OK + ['old(self).repair_packets@.len() <= 16777216'],
          ensures=['sbd_same_received(*old(self), *final(self))',
